@@ -619,9 +619,8 @@ class RelativeJSONPointer:
                 )
             parts[-1] = f"#{parts[-1]}"
 
-        return JSONPointer.from_parts(
-            parts, unicode_escape=unicode_escape, uri_decode=uri_decode
-        )
+        # Both pointers have been decoded already.
+        return JSONPointer.from_parts(parts, unicode_escape=False, uri_decode=False)
 
 
 def resolve(
